@@ -94,6 +94,16 @@ def build_pool(tier):
         d1 = [x for i, x in enumerate(d1)
               if not (isinstance(x, list) and len(x) == 2 and i % 2)]
     pool += d1
+    # objects (member order must not matter, 1 and 1.0 as member values)
+    # and syntax nodes (equal to nothing of another kind, whatever they
+    # print like)
+    pool += [("obj", []), ("obj", [("a", 1)]), ("obj", [("a", 1), ("b", 2)]),
+             ("obj", [("b", 2), ("a", 1)]), ("obj", [("a", 1.0), ("b", 2)]),
+             ("obj", [("a", 1), ("b", "2")]), ("obj", [("b", 1), ("a", 2)]),
+             ("obj", [("c", [1]), ("a", ("set", [1, 2]))]),
+             ("obj", [("a", ("set", [2, 1])), ("c", [1.0])]),
+             ("node", "1"), ("node", "'a'"), ("node", "NULL"),
+             ("node", "[1, 2]"), ("node", "1 + 2"), ("node", "TRUE")]
     deep = [
         [[1]], [[1.0]], [[1, 0]], [[1.0, -0.0]], [("set", [1])],
         [("set", [1.0])], [("map", [(1, "a")])], [("map", [(1.0, "a")])],
@@ -171,6 +181,44 @@ def explore_history(chunk):
                         {"t": "hist", "name": name, "x": x, "y": y,
                          "src": f.src["hist:" + name]},
                         want, core.show_raw(r), size=len(repr((x, y))))
+        agg.count("cases")
+    return agg
+
+
+# one value reached through two names (functions, objects, nodes, streams are
+# equal to themselves): putting it into a set or map and naming it again
+# must not make it unfindable
+SAME_VALUE = {
+    "lambda": "fn(v) v", "lambda2": "fn(a, b = 1) [a, b]",
+    "named": "do def nf(v) v; nf end", "native": "length",
+    "object": "<*a = 1, b = [2]*>", "empty-object": "<**>",
+    "node": "parse('1 + x')", "pattern": "//a+//",
+    "list": "[1, [2]]", "date": "date('20200101')",
+}
+SAME_PROBE = ("do def v1 = {E}; def s = <<v1>>; "
+              "def m = <<<identity(v1) => 1>>>; def l = [v1]; "
+              "def v2 = v1; def v3 = identity(v2); "
+              "[v1 in s, v2 in s, v3 in s, v1 == v2, v2 == v1, "
+              "length(<<v1, v2, v3>>), m[v1, 'nf'], m[v2, 'nf'], "
+              "m[v3, 'nf'], v2 in l, length(s + <<v2>>), "
+              "do remove(s, v3); length(s) end] end")
+SAME_WANT = [True, True, True, True, True, 1, 1, 1, 1, True, 1, 0]
+
+
+def explore_same(chunk):
+    agg = core.Agg()
+    s = core.Session(secure=True, legacy=True)
+    for name, expr in SAME_VALUE.items():
+        src = SAME_PROBE.replace("{E}", expr)
+        s.reset()
+        o = core.outcome_raw(lambda: s.interp.interpret(src, "same"))
+        agg.count("steps")
+        got = core.from_value(o[1]) if o[0] == "value" else core.show_raw(o)
+        agg.cls(("same", name, o[0]))
+        if got != SAME_WANT:
+            agg.violation({"law": "one-value-two-names", "kind": name},
+                          {"t": "same", "src": src}, SAME_WANT, got,
+                          size=len(src))
         agg.count("cases")
     return agg
 
@@ -366,6 +414,13 @@ def explore_orders(chunk):
 
 def replay(case, verbose=False):
     pool = None
+    if case["t"] == "same":
+        s = core.Session(secure=True, legacy=True)
+        o = core.outcome_raw(lambda: s.interp.interpret(case["src"], "same"))
+        got = core.from_value(o[1]) if o[0] == "value" else core.show_raw(o)
+        if verbose:
+            print(case["src"], "->", got, "expected", SAME_WANT)
+        return got != SAME_WANT
     if case["t"] == "pair":
         chunk = {"pool": [case["a"], case["b"]], "rows": [0, 1]}
         chunk["pool"] = [_fix(x) for x in chunk["pool"]]
@@ -459,6 +514,7 @@ def main(tier, seed):
                 (("set", [1, 9, 17]), ("set", [17, 9, 1]), [("set", [9, 1])]),
                 (("map", [(1, 0), (9, 0)]), ("map", [(9, 0), (1, 0)]), 2)]
     agg.merge(core.pmap(explore_history, [{"names": [n]} for n in HISTORY]))
+    agg.merge(core.pmap(explore_same, [{}]))
     a3 = core.pmap(explore_orders,
                    [{"subsets": c} for c in core.chunked(subsets,
                                                          core.NPROC)])
